@@ -4,6 +4,7 @@ import (
 	"encoding/json"
 	"fmt"
 	"regexp"
+	"strings"
 )
 
 var validUUID = regexp.MustCompile(`^[0-9a-f]{8}-[0-9a-f]{4}-[0-9a-f]{4}-[0-9a-f]{4}-[0-9a-f]{12}$`)
@@ -34,6 +35,11 @@ func (u *UUID) UnmarshalJSON(b []byte) (err error) {
 			return fmt.Errorf("expected a 2 element json array. there are %d elements", len(ovsUUID))
 		}
 		u.GoUUID = ovsUUID[1]
+		if ovsUUID[0] == "uuid" {
+			// hexadecimal digits may be written in either case: keep
+			// one spelling per uuid
+			u.GoUUID = strings.ToLower(u.GoUUID)
+		}
 	}
 	return err
 }
